@@ -56,8 +56,8 @@ SLURM_MAP = {"cores": "cpus-per-task", "memory": "mem", "walltime": "time", "que
 WD_NAMES = ["plain", "{queue}", "x{cores}y", "with space", "semi;colon", "amp&ersand", "dollar$HOME", "star*", "single'quote", 'double"quote', "paren(s)", "back`tick", "ünïcödé", "tab-less but  two spaces", "#hash", "~tilde", "a|b", "x>y", "br{a,b}ce", "q?mark", "excl!"]
 
 
-QUICK_BUDGET = {"cases": 240, "deadline_s": 170, "case_timeout_s": 120, "floors": {"scripts_checked": 171, "scripts_executed": 171, "directives_checked": 1038, "logs_cmd_checked": 137, "logclean_checked": 84}}
-THOROUGH_FACTOR = 48  # thorough = the same workload with 48x the cases (floors scale along)
+QUICK_BUDGET = {"cases": 960, "deadline_s": 170, "case_timeout_s": 120, "floors": {"scripts_checked": 684, "scripts_executed": 684, "directives_checked": 4152, "logs_cmd_checked": 548, "logclean_checked": 336}}
+THOROUGH_FACTOR = 12  # thorough = the same workload with 12x the cases (floors scale along)
 
 
 def budget(tier):
